@@ -66,7 +66,8 @@ FLD_TARGET = {'cx_1': (None, None, 1, None), 'cx_4': (None, None, 4, None), 'cx_
               'long': (None, None, 4, 1), 'positional': (None, None, 4, 3), 'cx_5': (None, None, 5, None)}
 
 TEXT_LEAVES = ('pid.pid_3.cx_4.hd_1', 'PID.PID_5.XPN_2', 'long', 'pid_3.cx_4.hd_1', 'pid_5.xpn_2', 'cx_1', 'cx_4.hd_1', 'zzz_1')
-OBSERVERS = ('len', 'iter', 'repr', 'slice', 'bool', 'twice')
+# 'all' = len, iteration, repr, empty slice and truth value one after the other (reads merge into one state anyway)
+OBSERVERS = ('all', 'twice')
 
 
 def walk(root, chain):
@@ -129,7 +130,13 @@ class ReadSpec(hist.Spec):
         if op[0] == 'read':
             e = walk(r, chain)
             o = op[2]
-            if o == 'len':
+            if o == 'all':
+                len(e)
+                list(e)
+                repr(e)
+                e[0:0]
+                bool(e)
+            elif o == 'len':
                 len(e)
             elif o == 'iter':
                 list(e)
